@@ -39,6 +39,14 @@ let show_wevs = function
   | l -> String.concat " " (List.map (function WIn p -> "i" ^ string_of_int (int_of_nat p)
                                               | WOut p -> "o" ^ string_of_int (int_of_nat p)) l)
 
+let words_of (s : string) : word list =
+  if s = "_" then [] else List.map (fun x -> WFix (nat x)) (String.split_on_char ',' s)
+let rec padded n l = if List.length l >= n then l else l @ List.init (n - List.length l) (fun _ -> WFix O)
+let show_words = function
+  | [] -> "_"
+  | l -> String.concat "," (List.map (function WFix n -> string_of_int (int_of_nat n) | WObj n -> "o" ^ string_of_int (int_of_nat n)) l)
+let rec firstn_ k l = if k <= 0 then [] else match l with [] -> [] | x :: r -> x :: firstn_ (k - 1) r
+
 let handle = function
   | ("run" | "runimpl" as w) :: fuel :: toks ->
      let (e, rest) = parse toks in
@@ -51,6 +59,16 @@ let handle = function
      (match travel_to_point hp (travel_fuel hp (nat a) (nat b)) (nat a) (nat b) with
       | None -> "NONE" | Some l -> show_wevs l)
   | ["script"; h; a; b] -> show_wevs (wind_script (heap_of h) (nat a) (nat b))
+  | ["ssave"; pad; st; to_] ->
+     (* stack = words padded with zeros to pad words; sexp_save_stack model *)
+     show_words (save_stack (padded (int_of_string pad) (words_of st)) (nat to_))
+  | ["srestore"; pad; st; saved] ->
+     let s = padded (int_of_string pad) (words_of st) and sv = words_of saved in
+     (match restore_stack s sv with
+      | None -> "GROW"
+      | Some (s', t) ->
+         let k = (max (List.length (words_of st)) (List.length sv)) + 2 in
+         string_of_int (int_of_nat t) ^ " " ^ show_words (firstn_ k s'))
   | f -> "ERR unknown request " ^ String.concat " " f
 
 let () = serve handle
